@@ -244,6 +244,43 @@ def run(ctx, R):
                     rec(v, under_sign_test)
         rec(ph["body"], False)
     R.floor("big-integer right shifts in the evaluator", n_shr, 1)
+    # floor modulus on big integers: the unsigned residue r in 0..|m| is shifted by a negative modulus only when it is
+    # not zero (r + m would otherwise be m itself: X mod M = M for every exact division by a negative M). Two seed agents
+    # independently removed exactly this test.
+    rf = [p for p in F.items if p.endswith("arithmetic_ops::modulus::ibig_rem_floor")]
+    if len(rf) != 1:
+        raise AnchorLost("arithmetic_ops::modulus::ibig_rem_floor (%d)" % len(rf))
+    rfb = F.hir(rf[0])
+    divisor = [prm for prm in (rfb.get("params") or []) ]
+    n_shift = 0
+
+    def rec_rf(n, zero_guard):
+        nonlocal n_shift
+        if isinstance(n, list):
+            for x in n:
+                rec_rf(x, zero_guard)
+            return
+        if not isinstance(n, dict):
+            return
+        if n.get("k") == "If":
+            c = n["cond"]
+            tests_zero = any(x.get("k") == "MethodCall" and x.get("name") == "is_zero" for x in walk(c))
+            negated = c.get("k") == "Unary" and "Not" in str(c.get("op"))
+            rec_rf(c, zero_guard)
+            rec_rf(n["then"], zero_guard or (tests_zero and negated))
+            if "else" in n:
+                rec_rf(n["else"], zero_guard or (tests_zero and not negated))
+            return
+        if n.get("k") == "Binary" and n.get("op") == "Add" and "IBig" in ((n.get("ty") or "") + (n.get("inst") or "") + (n["a"].get("ty") or "")):
+            n_shift += 1
+            R.ob("C01:floor-mod:residue-shifted-only-when-nonzero@%d" % (n["ln"] - F.items[rf[0]]["line"]), zero_guard,
+                 "ibig_rem_floor adds the modulus to the unsigned residue (line %s) outside the non-zero branch of an is_zero() test: an exact division by a negative "
+                 "big modulus then gives the modulus instead of 0 (2^64 mod -(2^32) = -(2^32)), and div, built on it, is off by one" % n["ln"], F.where(rf[0]))
+        for k, v in n.items():
+            if k != "mac" and isinstance(v, (dict, list)):
+                rec_rf(v, zero_guard)
+    rec_rf(rfb["body"], False)
+    R.floor("big-integer floor-mod sign adjustments", n_shift, 1)
     # impl Neg for Fixnum has no caller inside the evaluator scope
     negf = F.find_impl("Fixnum", "std::ops::Neg", "neg")
     callers = [p for p in S if any((c.get("resolved") or c.get("callee")) == negf for c in F.calls.get(p, []))]
